@@ -15,7 +15,8 @@ EXPLANATION = ("Static rules over Simulator._update_schedules, _increase_width a
                "the fits and the grow branch, and the grown width covers t+len; every normal path other than the empty-schedule "
                "return performs that block write (an infeasible schedule only warns); _increase_width returns its argument or a "
                "fresh array into which the old content was copied; every arithmetic use of the queue's last timestamp is "
-               "guarded against the empty queue; update_pilots sends column i to every EVSE unconditionally.")
+               "guarded against the empty queue; update_pilots sends column i to every EVSE unconditionally."
+               ' Added in round 3: the decision table of BaseEVSE.set_pilot (an accepted pilot is latched exactly once also on a vacant station, overrides delegate), semantic forms of the content-preserving growth (zeros + copy, concatenate / hstack with the missing zero block, pad), the loop-structure rules of C01 incl. growth in every period.')
 NOT_DECIDED = "equality of matrix contents over sequences of schedules; numpy broadcasting of int/float/array rows"
 
 
